@@ -245,10 +245,18 @@ def echo(detector, level=0.0, vec=(0.0, 0.0), name="x", other=0.0, tag=None):
     ECHO.append(rec)
     _log(dict(rec, kind="echo"))
     shp = detector.geometry.shape
-    val = encode(level, vec_t, other, qe, temperature)
+    val = encode(level, vec_t, other, qe, temperature) + name_code(name)
     detector.pixel.array = detector.pixel.array + np.full(shp, val)
     detector.signal.array = np.full(shp, float(level))
     detector.image.array = np.full(shp, int(abs(float(level)) * 16) % 60000, dtype=np.uint16)
+
+
+NAME_CODES = {"x": 0, "b": 1, "a": 2, "zz": 3, "img_01.fits": 4, "Uniform": 5}
+
+
+def name_code(name) -> float:
+    """Contribution of the text-valued argument to the encoding ('x', the default, contributes nothing)."""
+    return 1e-7 * NAME_CODES.get(str(name), 9)
 
 
 def encode(level, vec, other, qe, temperature):
